@@ -11,7 +11,7 @@ wt = Path(f"/tmp/reseed_{sid}_{os.getpid()}")
 subprocess.run(["git", "-C", "/repo", "worktree", "add", "-q", str(wt), "HEAD"], check=True)
 try:
     subprocess.run(["git", "apply", str(d / "patch.diff")], cwd=wt, check=True)
-    env = dict(os.environ, PYTHONPATH=str(wt), PYTHONDONTWRITEBYTECODE="1")
+    env = dict(os.environ, PYTHONPATH=str(wt), PYTHONDONTWRITEBYTECODE="1", VERIF_EVIDENCE_DIR="/tmp/txv_seed_evidence", VERIF_REPLAYS_DIR="/tmp/txv_seed_replays")
     res = {}
     for pid in pids:
         t = time.time()
